@@ -12,6 +12,17 @@ open GoMC GoMC.Model.Region
 set_option linter.unusedSimpArgs false
 set_option linter.unusedVariables false
 
+/-
+  Kinds of physical operation.  The write sequence returned by the model's `writeSector` is a list of WRITES
+  `(offset, bytes)`: the unchanged mca.go issues nothing else on the backing file inside `WriteSector` — it never calls
+  Truncate anywhere (`PadToFullSector` extends the file with Seek(end) + Write of zeros, which is how the model's
+  `padToFullSector` does it).  So `C15_footprint` has no Truncate clause.  The correspondence side enforces this: the
+  harness gives the code backing files WITH a Truncate method (`memt`, and a wrapped real *os.File) and journals
+  Truncate as a physical operation with its own crash points; the driver's oracle (`footprintViolation`) reports as a
+  violation any journal entry that is not a write inside slot(x,z) ∪ tsSlot(x,z) ∪ one run of `need` sectors, and any
+  operation at all issued by a refused or panicking write.
+-/
+
 /-- `C15_footprint`: every physical write of `WriteSector(x,z,data)` lies inside the header slot of (x,z), its
     timestamp slot, or the sectors `[r, r+need)` of the run it chose; and every sector of that run is free in
     the old state or belongs to (x,z)'s old run. -/
